@@ -168,6 +168,26 @@ CHECKS["C06"] = (
     "bounded-exhaustive input/configuration enumeration with differential "
     "(single-channel / member-wise) oracle")
 
+CHECKS["C07"] = (
+    "4/C07",
+    "Inputs: product grid shape (incl. 1xN, Nx1, odd, 1x1) x spacing "
+    "(isotropic/anisotropic) x origin x theory (Mie, Multisphere, T-matrix, "
+    "MieLens with/without interpolation); for every grid the same "
+    "locations as explicit points, EVERY axis-aligned sub-rectangle (and "
+    "subimage crops), every subset size 1..N x seeds 0..4 (distinctness, "
+    "reproducibility, coordinates, original axes, commutation with the "
+    "forward calculation); environment enumeration: every ordered "
+    "k-selection (1956) numpy.random.choice could answer for a 2x3 image "
+    "through a scripted seam.  Histories: every sequence of length <= 3 "
+    "over 8 operations sharing one detector and one scatterer object, each "
+    "step bit-identical to its pristine-interpreter reference and leaving "
+    "the shared inputs' fingerprints unchanged.",
+    "Trusted: fork() gives a pristine interpreter.  MieLens values compared "
+    "to 1e-11 / 1e-7 (vectorised reductions, per-call interpolation "
+    "decision), everything else bit-identical.",
+    "bounded-exhaustive input enumeration + scripted-environment "
+    "enumeration + exhaustive operation-sequence search (depth 3)")
+
 NOT_YET = {}
 
 
